@@ -738,14 +738,17 @@ int yr_arena_save_stream(YR_ARENA* arena, YR_STREAM* stream)
   }
 
   // Now that all relocatable pointers are converted to references, write the
-  // buffers.
+  // buffers. From this point on a failed write must not return right away,
+  // the pointers have to be restored first.
+  int result = ERROR_SUCCESS;
+
   for (uint32_t i = 0; i < arena->num_buffers; ++i)
   {
     YR_ARENA_BUFFER* b = &arena->buffers[i];
 
-    if (b->used > 0)
+    if (result == ERROR_SUCCESS && b->used > 0)
       if (yr_stream_write(b->data, b->used, 1, stream) != 1)
-        return ERROR_WRITING_FILE;
+        result = ERROR_WRITING_FILE;
   }
 
   // Write the relocation list and restore the pointers back.
@@ -760,8 +763,9 @@ int yr_arena_save_stream(YR_ARENA* arena, YR_STREAM* stream)
 
     // Write the relocation entry, which consists in a reference to the place
     // where the pointer that needs to be relocated is stored.
-    if (yr_stream_write(&ref, sizeof(ref), 1, stream) != 1)
-      return ERROR_WRITING_FILE;
+    if (result == ERROR_SUCCESS &&
+        yr_stream_write(&ref, sizeof(ref), 1, stream) != 1)
+      result = ERROR_WRITING_FILE;
 
     // Move the reference that is going to be replaced by the corresponding
     // pointer to the ref variable. Notice that ref is being reused for a
@@ -787,8 +791,9 @@ int yr_arena_save_stream(YR_ARENA* arena, YR_STREAM* stream)
   // complete file from a truncated one.
   YR_ARENA_REF end_ref = YR_ARENA_NULL_REF;
 
-  if (yr_stream_write(&end_ref, sizeof(end_ref), 1, stream) != 1)
-    return ERROR_WRITING_FILE;
+  if (result == ERROR_SUCCESS &&
+      yr_stream_write(&end_ref, sizeof(end_ref), 1, stream) != 1)
+    result = ERROR_WRITING_FILE;
 
-  return ERROR_SUCCESS;
+  return result;
 }
